@@ -165,47 +165,54 @@ Definition ex_bs : list byte :=
   [x98; x86; x00; x05] ++ firstn 3 ex_b1 ++ [xa3; x01; x08; x05; xa4; x01] ++ skipn 3 ex_b1 ++ [x15; x01; x02; x03; x04].
 Definition ex_ps (bs : list byte) : list parsed := match frames (S (length bs)) bs with Some ps => ps | None => [] end.
 
+Definition ex_dummy : obj := Obj 0 [] false [] [].
+Definition ex_mo_bs : obj := Eval vm_compute in ex_get ex_dummy (parse ex_old 11 ex_bs).
+
 Example C08_unknown_nonvacuous :
-  exists m, parse ex_old 11 ex_bs = Ok m /\
-    ounk m = [x98; x86; x00; x05] ++ [xa3; x01; x08; x05; xa4; x01] ++ unknown_raw (get_class ex_old 11) (ex_ps ex_b1) ++ [x15; x01; x02; x03; x04] /\
-    parse ex_old 11 (known_raw (get_class ex_old 11) (ex_ps ex_bs)) = Ok (clear_unk m) /\
-    records ex_bs (ex_ps ex_bs) /\ length (ex_ps ex_bs) = 9%nat /\
-    length (filter (is_unknown (get_class ex_old 11)) (ex_ps ex_bs)) = 5%nat.
+  parse ex_old 11 ex_bs = Ok ex_mo_bs /\
+  ounk ex_mo_bs = [x98; x86; x00; x05] ++ [xa3; x01; x08; x05; xa4; x01]
+                  ++ unknown_raw (get_class ex_old 11) (ex_ps ex_b1) ++ [x15; x01; x02; x03; x04] /\
+  parse ex_old 11 (known_raw (get_class ex_old 11) (ex_ps ex_bs)) = Ok (clear_unk ex_mo_bs) /\
+  records ex_bs (ex_ps ex_bs) /\ length (ex_ps ex_bs) = 9%nat /\
+  length (filter (is_unknown (get_class ex_old 11)) (ex_ps ex_bs)) = 5%nat.
 Proof.
-  eexists. split; [vm_compute; reflexivity|]. split; [vm_compute; reflexivity|]. split; [vm_compute; reflexivity|].
+  split; [vm_compute; reflexivity|]. split; [vm_compute; reflexivity|]. split; [vm_compute; reflexivity|].
   split; [apply frames_sound with (n := S (length ex_bs)); vm_compute; reflexivity|]. split; vm_compute; reflexivity.
 Qed.
+
+Definition ex_m1 : obj := Eval vm_compute in ex_get ex_dummy (parse ex_new 11 ex_b1).
+Definition ex_mo : obj := Eval vm_compute in ex_get ex_dummy (parse ex_old 11 ex_b1).
+Definition ex_b2 : list byte := Eval vm_compute in ex_get [] (enc_obj ex_old ex_mo).
 
 Example C08_evolution_nonvacuous :
   let cdo := get_class ex_old 11 in
   let ps := ex_ps ex_b1 in
   nodup_z (map fnum (cfields (get_class ex_new 11))) = true /\
   enc_obj ex_new ex_m = Ok ex_b1 /\
-  (exists m1, parse ex_new 11 ex_b1 = Ok m1 /\ obj_eq ex_new m1 ex_m = true) /\
+  parse ex_new 11 ex_b1 = Ok ex_m1 /\ obj_eq ex_new ex_m1 ex_m = true /\
   records ex_b1 ps /\ split_free (get_class ex_new 11) cdo ps = true /\
-  (exists mo b2, parse ex_old 11 ex_b1 = Ok mo /\ ounk mo <> [] /\ enc_obj ex_old mo = Ok b2 /\ b2 <> ex_b1 /\
-                 enc_obj ex_old (clear_unk mo) = Ok (known_raw cdo ps) /\
-                 parse ex_new 11 b2 = parse ex_new 11 ex_b1).
+  parse ex_old 11 ex_b1 = Ok ex_mo /\ ounk ex_mo <> [] /\ enc_obj ex_old ex_mo = Ok ex_b2 /\ ex_b2 <> ex_b1 /\
+  enc_obj ex_old (clear_unk ex_mo) = Ok (known_raw cdo ps) /\
+  parse ex_new 11 ex_b2 = Ok ex_m1.
 Proof.
   cbv zeta. split; [vm_compute; reflexivity|]. split; [vm_compute; reflexivity|].
-  split; [eexists; split; vm_compute; reflexivity|].
+  split; [vm_compute; reflexivity|]. split; [vm_compute; reflexivity|].
   split; [apply frames_sound with (n := S (length ex_b1)); vm_compute; reflexivity|].
-  split; [vm_compute; reflexivity|].
-  eexists. eexists. split; [vm_compute; reflexivity|]. split; [vm_compute; discriminate|].
+  split; [vm_compute; reflexivity|]. split; [vm_compute; reflexivity|]. split; [vm_compute; discriminate|].
   split; [vm_compute; reflexivity|]. split; [vm_compute; discriminate|]. split; vm_compute; reflexivity.
 Qed.
 
-(* the oneof side condition is needed: with the deleted member u1 AFTER... no — BEFORE the kept member u2 in the input,
-   the older writer moves u1 behind u2 and the newer reader then selects u1 instead of u2 *)
+(* the oneof side condition is needed: with the deleted member u1 BEFORE the kept member u2 in the input, the older
+   writer moves u1 behind u2 and the newer reader then selects u1 instead of u2 (the reference implementation does
+   the same: unknown fields are written after the known ones; a canonical encoder never emits two members) *)
 Definition ex_conflict : list byte := [x2a; x01; x78; x30; x07].     (* u1 = "x", then u2 = 7 *)
+Definition ex_c_mo : obj := Eval vm_compute in ex_get ex_dummy (parse ex_old 11 ex_conflict).
+Definition ex_c_b2 : list byte := Eval vm_compute in ex_get [] (enc_obj ex_old ex_c_mo).
+Definition ex_c_direct : obj := Eval vm_compute in ex_get ex_dummy (parse ex_new 11 ex_conflict).
+Definition ex_c_evolved : obj := Eval vm_compute in ex_get ex_dummy (parse ex_new 11 ex_c_b2).
 Example C08_split_oneof_refuted :
   split_free (get_class ex_new 11) (get_class ex_old 11) (ex_ps ex_conflict) = false /\
-  exists mo b2 m_direct m_evolved,
-    parse ex_old 11 ex_conflict = Ok mo /\ enc_obj ex_old mo = Ok b2 /\
-    parse ex_new 11 ex_conflict = Ok m_direct /\ parse ex_new 11 b2 = Ok m_evolved /\
-    which_one_of m_direct 0 = Some 5%nat /\ which_one_of m_evolved 0 = Some 4%nat.
-Proof.
-  split; [vm_compute; reflexivity|]. do 4 eexists.
-  split; [vm_compute; reflexivity|]. split; [vm_compute; reflexivity|]. split; [vm_compute; reflexivity|].
-  split; [vm_compute; reflexivity|]. split; vm_compute; reflexivity.
-Qed.
+  parse ex_old 11 ex_conflict = Ok ex_c_mo /\ enc_obj ex_old ex_c_mo = Ok ex_c_b2 /\
+  parse ex_new 11 ex_conflict = Ok ex_c_direct /\ parse ex_new 11 ex_c_b2 = Ok ex_c_evolved /\
+  which_one_of ex_c_direct 0 = Some 5%nat /\ which_one_of ex_c_evolved 0 = Some 4%nat.
+Proof. repeat split; vm_compute; reflexivity. Qed.
